@@ -108,7 +108,7 @@ Hypothesis HB : (2 <= B)%Z.
 (** any log2 estimator of significands and any estimate of the base that satisfy the contract of C12 *)
 Variable est : Z -> f32 * f32.
 Variable best : f32 * f32.
-Hypothesis est_ok : forall s, s <> 0%Z ->
+Hypothesis est_ok : forall s, s <> 0%Z -> (Z.abs s < B ^ big)%Z ->
   fin (snd (est s)) = true /\ log2R (IZR (Z.abs s)) <= b2r (snd (est s)) /\ b2r (snd (est s)) <= p2 100.
 Hypothesis best_ok : B <> 2%Z -> B <> 10%Z -> fin (fst best) = true /\ / 2 <= b2r (fst best) <= log2R (IZR B).
 
@@ -119,7 +119,7 @@ Definition du32 (s : Z) : Z :=
 Lemma du32_ok s : s <> 0%Z -> (Z.abs s < B ^ (du32 s + 1))%Z.
 Proof.
   intros Ns. unfold du32. destruct (Z.ltb_spec (Z.abs s) (B ^ big)) as [L|_].
-  - destruct (est_ok s Ns) as (F & U & U100). apply digits_ub_hypothesis; assumption.
+  - destruct (est_ok s Ns L) as (F & U & U100). apply digits_ub_hypothesis; assumption.
   - apply ndigits_ok; assumption.
 Qed.
 
@@ -134,6 +134,32 @@ Proof.
   - apply repr_cmp_same_base_abs_correct; [exact HB | exact du32_ok | assumption | assumption].
 Qed.
 End WithEstimate.
+
+(** non-vacuity of the section: in base 10 the constant estimate 2^100 meets the contract for every significand below
+    10^(2^24), so the hypotheses are satisfiable (the library's own estimators are of course much tighter: C12, C14) *)
+Example float_cmp_with_f32_estimate_inhabited :
+  let est := fun _ : Z => (f_ninf, f_dyadic 1 100) in
+  (forall s, s <> 0%Z -> (Z.abs s < 10 ^ big)%Z ->
+     fin (snd (est s)) = true /\ log2R (IZR (Z.abs s)) <= b2r (snd (est s)) /\ b2r (snd (est s)) <= p2 100) /\
+  (10 <> 2 -> 10 <> 10 -> fin (fst (f_ninf, f_pinf)) = true /\ (/ 2 <= b2r (fst (f_ninf, f_pinf)) <= log2R (IZR 10))%R)%Z.
+Proof.
+  cbv zeta. split; [|intros _ H; exfalso; apply H; reflexivity].
+  intros s Ns Hs. cbn [snd].
+  assert (V : b2r (f_dyadic 1 100) = p2 100 /\ fin (f_dyadic 1 100) = true).
+  { assert (E : F2R (Float radix2 1 100) = p2 100) by (unfold F2R; cbn [Fnum Fexp]; lra).
+    rewrite <- E. apply f_dyadic_R.
+    - rewrite E. apply F32_bpow. lia.
+    - rewrite E, Rabs_pos_eq by apply bpow_ge_0. apply p2_lt_max. lia. }
+  destruct V as [V F]. split; [exact F|]. rewrite V. split; [|lra].
+  apply Rle_trans with (log2R (IZR (10 ^ big))).
+  - apply log2R_le; [apply IZR_lt; lia | apply IZR_le; lia].
+  - rewrite log2R_Zpow by (rewrite ?big_val; lia).
+    assert (log2R (IZR 10) <= 4) as L4.
+    { replace 4 with (log2R (p2 4)) by (rewrite log2R_bpow; reflexivity). apply log2R_le; [lra | simpl; lra]. }
+    assert (0 <= log2R (IZR 10)) as L0 by (rewrite <- log2R_1; apply log2R_le; lra).
+    rewrite big_val. apply Rle_trans with (16777216 * 4); [apply Rmult_le_compat_l; lra|].
+    apply Rle_trans with (p2 27); [simpl; lra | apply p2_mono; lia].
+Qed.
 
 (** non-vacuity of the contract: base 10, s = 999: the upper bound 10 (>= log2 999 = 9.96...) gives
     fl(10 * LOG10_2) = 3.0103.. -> 3 + 1 = 4 digits, and 999 < 10^4 *)
